@@ -215,6 +215,34 @@ func pinnedCases() []pinned {
 		m.Headers = []*schema.Header{{Name: "X-Tenant-ID", Type: "string", Required: false}}
 		innerCase("C09", "C09/optional_override_still_required.json", "server", "c09", "PinService.Do", s, "header_override_drops_required")
 	}
+	{
+		s, req, _, _, _ := baseSchema("p0036")
+		req.Fields = append(req.Fields, &schema.Field{Name: "blob", Number: 2, Kind: schema.KBytes, Card: schema.Singular, Ann: &schema.Ann{BytesEncoding: 5}})
+		innerCase("C11", "C11/hex_invalid_read_as_base64.json", "both", "c11", "PinService.Do", s)
+		s2, _, _, _, _ := baseSchema("p0037")
+		innerCase("C11", "C11/invalid_utf8_plain_text_400.json", "both", "c11", "PinService.Do", s2)
+	}
+	{
+		s, _, resp, _, _ := baseSchema("p0038")
+		resp.Fields = []*schema.Field{{Name: "quota", Number: 1, Kind: schema.KUint64, Card: schema.Singular, Ann: &schema.Ann{Examples: []string{"7", "13"}}}}
+		innerCase("C20", "C20/examples_ignored_for_unhandled_kinds.json", "server", "c20", "PinService.Do", s)
+		out[len(out)-1].Doc.(*innerReplay).Param = "generate_mock=true"
+		s2, _, resp2, _, _ := baseSchema("p0039")
+		resp2.Fields = []*schema.Field{{Name: "quota", Number: 1, Kind: schema.KInt64, Card: schema.Singular, Ann: &schema.Ann{Examples: []string{"not-a-number", "7", "13"}}}}
+		innerCase("C20", "C20/unparsable_example_default.json", "server", "c20", "PinService.Do", s2)
+		out[len(out)-1].Doc.(*innerReplay).Param = "generate_mock=true"
+	}
+	{
+		s, _, resp, _, _ := baseSchema("p0040")
+		types := &schema.File{Name: "p0040/types.proto", Generate: true, Messages: []*schema.Message{{Name: "Counter", Fields: []*schema.Field{
+			{Name: "total", Number: 1, Kind: schema.KInt64, Card: schema.Singular, Ann: &schema.Ann{Int64Encoding: 2}}}}}}
+		s.Files = append(s.Files, types)
+		resp.Fields = append(resp.Fields, &schema.Field{Name: "counter", Number: 2, Kind: schema.KMessage, TypeRef: s.Pkg + ".Counter", Card: schema.Singular})
+		out = append(out, pinned{File: "C14/client_serviceless_int64_codec.json", Doc: &c14Case{Property: "C14", Kind: "behaviour", Schema: s}})
+		s2, _, resp2, _, _ := baseSchema("p0041")
+		resp2.Fields = []*schema.Field{{Name: "items", Number: 1, Kind: schema.KString, Card: schema.Repeated, Ann: &schema.Ann{Unwrap: true}}}
+		out = append(out, pinned{File: "C14/client_has_no_unwrap_codec.json", Doc: &c14Case{Property: "C14", Kind: "behaviour", Schema: s2}})
+	}
 	// ---- C20 open ----
 	{
 		s, _, resp, _, _ := baseSchema("p0013")
